@@ -434,6 +434,43 @@ func exercise(x *h.X, s *scheme, id uint32) {
 		}
 		ctBuf[pos] ^= 0x01
 	}
+	// HISTORY with a decryption that fails EARLY (in decapsulation: the encapsulated key is not a valid point / is a
+	// low-order point) under a context info the object has not seen before: afterwards that context info binds like
+	// any other - a ciphertext made under another info is refused under it, its own ciphertexts are accepted.
+	infoC := ref.KeyBytes("c06-info-c", 24)
+	if got, err := s.dec.Decrypt(ctA, bytes.Clone(infoA)); err != nil || !bytes.Equal(got, pt) {
+		fail("roundtrip", "%s: Decrypt of the first ciphertext under the first context info: %v", s.cfg, err)
+		return
+	}
+	for _, fill := range []byte{0xFF, 0x00} {
+		badEnc := bytes.Clone(ctA)
+		for i := pl; i < pl+s.encLen && i < len(badEnc); i++ {
+			badEnc[i] = fill
+		}
+		if fill == 0xFF && pl < len(badEnc) {
+			badEnc[pl] = 0x04
+		}
+		if _, err := s.dec.Decrypt(badEnc, bytes.Clone(infoC)); err == nil {
+			fail("accept-forgery", "%s: a ciphertext whose encapsulated key is all %#x is accepted", s.cfg, fill)
+			return
+		}
+		if _, err := s.dec.Decrypt(ctA, bytes.Clone(infoC)); err == nil {
+			fail("accept-other-info", "%s: after a decryption that failed in decapsulation under context info C, the ciphertext made under context info A is accepted under C", s.cfg)
+			return
+		}
+		reseed(s.cfg + "|history-c")
+		ctC, err := s.enc.Encrypt(pt, bytes.Clone(infoC))
+		if err != nil {
+			fail("encrypt-error", "%s: %v", s.cfg, err)
+			return
+		}
+		if got, err := s.dec.Decrypt(ctC, bytes.Clone(infoC)); err != nil || !bytes.Equal(got, pt) {
+			fail("roundtrip", "%s: after a decryption that failed in decapsulation under context info C, a genuine ciphertext made under C is rejected: %v", s.cfg, err)
+			return
+		}
+		infoC = append(infoC, fill) // a fresh, never seen info for the second round
+	}
+	x.Eval(8)
 }
 
 func main() {
